@@ -12,7 +12,7 @@ from coqlit import cQ, cZ, cnat, clist  # noqa: E402
 
 ID = "C07"
 THEOREMS = [
-    "c07_sampled_index_of", "c07_sampled_range", "c07_sampled_roundtrip", "c07_sampled_axis",
+    "c07_sampled_index_of", "c07_sampled_range", "c07_sampled_roundtrip", "c07_sampled_axis", "c07_sampled_axis_at", "c07_sampled_axis_at_sample",
     "c07_ticks_index_of", "c07_ticks_range", "c07_ticks_roundtrip",
     "c07_set_index_of", "c07_set_range",
     "c07_oracle_sound", "c07_sampled_band_refuted",
@@ -226,6 +226,19 @@ def run(ctx):
          "(%s, %s, %s, (%s, %s, %s, %s))" % (q(c[0]), q(c[1]), cZ(c[2]), q(r[0]), optz(r[1]), optz(r[2]), optz(r[3])),
          {"offset": float(Fraction(*c[0])), "interval": float(Fraction(*c[1])), "index": c[2]}, r)
         for c, r in zip(roundtrip, impl["roundtrip"])])
+    # axes started by position / by nothing / by index 0: the model's answer (Pure/Dims.v sampled_axis_at, sampled_axis)
+    ax_items = []
+    for c, r in zip(roundtrip, impl["roundtrip"]):
+        for how, p, res in r[5]:
+            inp = {"offset": float(Fraction(*c[0])), "interval": float(Fraction(*c[1])), "started_by": how,
+                   "start_position": None if p is None else float(Fraction(*p))}
+            if isinstance(res, str) and res != "ValueError":
+                ax_items.append((None, inp, res))
+                continue
+            pt = "(Some %s)" % q(p) if how == "position" else "None"
+            rt = "None" if res == "ValueError" else "(Some %s)" % clist([q(a) for a in res], "Q")
+            ax_items.append(("(%s, %s, %s, %s)" % (q(c[0]), q(c[1]), pt, rt), inp, res))
+    add("axis_at", "axis_at_case", "check_axis_at", ax_items)
     # axis check (python side of the tie: axis(3, start=i)[k] == position_at(i+k) on dyadic inputs)
     for c, r in zip(roundtrip, impl["roundtrip"]):
         off, itv, i = Fraction(*c[0]), Fraction(*c[1]), c[2]
@@ -233,6 +246,19 @@ def run(ctx):
         got = [Fraction(*a) for a in r[4]]
         if want != got:
             odd.append(("axis", {"offset": float(off), "interval": float(itv), "start": i}, [float(g) for g in got]))
+        # an axis started by position begins AT that position (refused before the offset); without a start, or with
+        # start index 0 (which wins over a position), at the offset
+        for how, p, res in r[5]:
+            if how == "position":
+                pq = Fraction(*p)
+                wantv = "ValueError" if pq < off else [pq + k * itv for k in range(3)]
+            else:
+                wantv = [off + k * itv for k in range(3)]
+            gotv = res if isinstance(res, str) else [Fraction(*a) for a in res]
+            if wantv != gotv:
+                odd.append(("axis started by " + how, {"offset": float(off), "interval": float(itv),
+                                                         "start_position": None if p is None else float(Fraction(*p))},
+                            res if isinstance(res, str) else [float(g) for g in gotv]))
     t_items, tr_items = [], []
     for (ticks, qs, rs), (one, two, extra) in zip(ticks_req, impl["ticks"]):
         tl = clist([q(t) for t in ticks], "Q")
